@@ -28,6 +28,10 @@ CHECKS = {
   technique="deterministic simulation: every variant is a cold fully simulated FORD run; the seeded scheduler varies PYTHONHASHSEED, source-set order, directory enumeration order, worker count with SimPool interleavings (real pickle round trip, baton-passed threads), output-directory history (empty/stale/same/regular file) and a simulated clock, one dimension at a time and all at once; oracle = byte-identical output tree and equal outcome vs the reference run; plan-then-world minimisation, twice-cold confirmation, shim-free / heap-pad classification",
   text="Seeded search over (generated multi-file world incl. equal entity names, unknown-module USE sets, submodules, block data, pages, option swarm) x the schedule/history dimensions the statement names. Each evaluation is a complete real run in a fresh interpreter; output trees are compared byte for byte. Sampling, not proof; file-order permutations exhaustive only for <=3 (quick) / <=4 (thorough) files.",
   note="SimPool is a model of process_map (validated against the real pool in the thorough tier); all variants share one absolute path, scrubbed environment, ASLR off; mtimes/modes not compared; FORD crashes on project_url+search (outside the claimed properties) so that combination is not generated"),
+"C19": dict(level="fault_enumeration", design="5.3",
+  technique="deterministic simulation with fault injection: a fault-free cold run numbers every file-system operation of the run; the run is then repeated with one injected fault (errno menu, torn write, failing child, kill -9) at a stratified sample of operation indices (quick) or at every index (thorough sweeps), plus sampled two-fault plans; oracle = mutating-operation log confined to the allowed roots + before/after content+metadata snapshot of the whole sandbox + refusal-before-first-mutation",
+  text="Enumerates single faults over the numbered FS operations of real FORD runs in sandboxes with bystander files, across placements of output_dir/graph_dir (sibling, nested, absolute, .., symlink, pre-existing stale with hostile symlinks, regular file, CLI) incl. six refusal placements, cwd and copy/write options. Complete over operation indices only in the thorough sweep worlds; otherwise stratified by (phase, op kind, path class).",
+  note="crash = process kill, not power loss; writes by child processes are judged by the snapshot only; running as root so real EACCES never occurs (simulated only); allowed roots are computed from the generated placement, independently of FORD"),
 }
 m = {"version":1,
  "setup_cmd":"/venv/bin/python -c 'import ford, sys; print(ford.__file__)' && command -v dot setarch >/dev/null && mkdir -p /dev/shm/fordsim",
